@@ -14,8 +14,9 @@ META = dict(
     level_text="Properties_C28.v: for every sequence of declarations and constructions (no bound) the three lookup tables are "
                "exactly the inverse of the node list, the same (symbol, arguments) always returns the same identity, different "
                "identities unfold to different trees, arguments are older than their parent; argument order of commutative "
-               "symbols is irrelevant when termSort's comparison is total (Logic; ArithLogic with a tie-break) and provably "
-               "NOT for ArithLogic's LessThan_deepPTRef as in the source (refuted theorem, reproduced). Tie: every run replays "
+               "symbols is irrelevant when termSort's comparison is total (Logic; ArithLogic with the tie-break of fix c8000f0) and "
+               "provably NOT for LessThan_deepPTRef without it (refuted theorem, history); the check selects the variant by observed "
+               "behaviour and a recurrence of the old one is a violation. Tie: every run replays "
                "PRNG construction sequences (raw mkFun level and simplifying constructors, QF_UF / QF_UFLIA / QF_UFLRA) on the "
                "extracted model with exact identity comparison and checks the final store dump.",
     level_note="Trusted: Coq kernel, extraction, ocaml/hashcons_driver.ml (trace parsing, int<->nat), harness/h_hashcons.cc (exposes the "
